@@ -16,10 +16,10 @@ CAP_S = {'quick': 200, 'thorough': 3000}
 MAX_SHARDS = 3
 RULE = ('case = history of <= 14 (quick) / 30 (thorough) operations among beartype_all(conf), beartype_package(name, conf), '
         'beartype_packages(names, conf), beartype_this_package(conf) called from a module of a generated package, enter/exit of '
-        'beartyping(conf) blocks (nested, LIFO, interleaved with global registrations), with confs from a pool of 6 (two carry '
-        'claw_skip_package_names) and names from a dotted alphabet incl. look-alike prefixes (a, a.b, a.b.c, ab, b, b.c) and '
+        'beartyping(conf) blocks (nested, LIFO, interleaved with global registrations), with confs from a pool of 10 (six carry '
+        'claw_skip_package_names, incl. ancestor/descendant pairs in both orders) and names from a dotted alphabet incl. look-alike prefixes (a, a.b, a.b.c, ab, b, b.c) and '
         'built-in-excluded packages. Executed in a forked pristine process in lock step with a declarative model (registered map, '
-        'all-conf, skip set, block stack); after every step all 12 names are queried and the path hook is observed. '
+        'all-conf, skip set, block stack); after every step all 15 names are queried and the path hook is observed. '
         'non-trivial = the history contains a conflict, a nested beartyping, or registrations of a package and one of its ancestors '
         'with different confs; distinct by canonical JSON')
 ASSUMPTIONS = [
@@ -29,10 +29,10 @@ ASSUMPTIONS = [
     'the skip list and the path hook are restored)',
 ]
 
-NAMES = ['a', 'a.b', 'a.b.c', 'a.bc', 'ab', 'ab.c', 'b', 'b.c', 'c', 'pydantic', 'pydantic.v1', 'urllib3x']
+NAMES = ['a', 'a.b', 'a.b.c', 'a.b.d', 'a.bc', 'a.d', 'ab', 'ab.c', 'b', 'b.c', 'b.d', 'c', 'pydantic', 'pydantic.v1', 'urllib3x']
 REG_NAMES = ['a', 'a.b', 'a.b.c', 'ab', 'b', 'b.c', 'pydantic', 'c']
 BUILTIN_EXCLUDED = ('_colorize', 'pydantic', 'urllib3', 'xarray')
-NCONF = 6
+NCONF = 10
 
 
 def _confs():
@@ -44,10 +44,15 @@ def _confs():
         BeartypeConf(claw_skip_package_names=('b',)),
         BeartypeConf(claw_is_pep526=False, claw_skip_package_names=('a.b', 'c')),
         BeartypeConf(warning_cls_on_decorator_exception=UserWarning),
+        # skip lists naming a package and its own ancestor / descendant, in both orders and across configurations
+        BeartypeConf(claw_skip_package_names=('a.b.c', 'a.b')),
+        BeartypeConf(claw_skip_package_names=('a',)),
+        BeartypeConf(claw_skip_package_names=('b.c',)),
+        BeartypeConf(strategy=BeartypeStrategy.On, claw_skip_package_names=('b', 'b.c', 'ab.c')),
     ]
 
 
-SKIPS = {3: ['b'], 4: ['a.b', 'c']}
+SKIPS = {3: ['b'], 4: ['a.b', 'c'], 6: ['a.b.c', 'a.b'], 7: ['a'], 8: ['b.c'], 9: ['b', 'b.c', 'ab.c']}
 
 
 def _key(conf):
